@@ -284,6 +284,21 @@ def random_spec(rng):
     return {"nodes": nodes, "marks": marks}
 
 
+_INLINE_CONTENT = None
+
+
+def inline_content_schema():
+    """a schema with what the bundled ones lack: an *inline* node that has content (a footnote), marked `atom`, and a block
+    atom with content (a figure) — positions inside them must resolve and count like any other node's"""
+    global _INLINE_CONTENT
+    if _INLINE_CONTENT is None:
+        n = _nodes(basic_schema)
+        n["footnote"] = {"inline": True, "group": "inline", "content": "text*", "atom": True}
+        n["figure"] = {"group": "block", "content": "paragraph+", "atom": True, "attrs": {"align": {"default": "left"}}}
+        _INLINE_CONTENT = SchemaInfo(Schema({"nodes": n, "marks": _marks(basic_schema)}), "inline-content")
+    return _INLINE_CONTENT
+
+
 REPEAT_OPS = ["+", "*", "?", "{2}", "{1,2}", "{1,}", "{2,}", "{0,1}", "{0,}"]
 
 
